@@ -47,7 +47,7 @@ def token(rng, forbid, lo=1, hi=8, first_forbid="", inner_blank=False, extra=())
 WORDS = ["Yes Please", "TRUE", "No", "oN", "yes", "0", "1", "0x1F", "017", "-42", "3.5e3", "NaN", "hello", "a b  c", "Off", "fAlSe", "99999999999999999999", "-99999999999999999999", "1e999", "4294967296", "1e-999"]
 
 
-def gen_conventional(rng, D, C, nlines, plain=False, rich=False, sections=True, max_key=8, cont_trail=True, inner_quotes=True):
+def gen_conventional(rng, D, C, nlines, plain=False, rich=False, sections=True, max_key=8, cont_trail=True, inner_quotes=True, quoted_out=None):
     """returns (lines, kinds, pairs): kinds[i] in blank|comment|header|entry|entry_plain|cont
     (entry_plain: an entry a continuation line may follow); pairs is the
     list of [section|None, key] in file order (keys are unique per section)."""
@@ -182,6 +182,8 @@ def gen_conventional(rng, D, C, nlines, plain=False, rich=False, sections=True, 
                             qt = qt[:k] + '"' + qt[k:]
                         no_trail = True
                     line += '"' + blanks(rng, 0, 1 if rng.chance(0.3) else 0) + qt + blanks(rng, 0, 2 if rng.chance(0.3) else 0) + '"'
+                    if quoted_out is not None and not no_trail:
+                        quoted_out.append(len(lines))       # index of a line whose value is quoted text without inner quotes
                     if no_trail:
                         line += blanks(rng, 0, 2)
                         lines.append(line)
